@@ -679,6 +679,40 @@ static int op_tick(int argc, char **argv, FILE *out) {
     return 1;
 }
 
+/* rxeval <hex pattern> <hex subject>: what the C library's regexec answers for a realm expression
+   (REG_EXTENDED | REG_ICASE | REG_NOSUB, as addrealm compiles it) - the reference for /regex/ realms */
+static int op_rxeval(int argc, char **argv, FILE *out) {
+    char *pat, *sub;
+    int r;
+    regex_t re;
+    if (argc != 2)
+        return 0;
+    pat = hxstr(argv[0]);
+    sub = hxstr(argv[1]);
+    if (!pat || !sub)
+        return 0;
+    if ((regcomp)(&re, pat, REG_EXTENDED | REG_ICASE | REG_NOSUB)) {
+        fprintf(out, "rxeval e");
+    } else {
+        r = (regexec)(&re, sub, 0, NULL, 0);
+        (regfree)(&re);
+        fprintf(out, "rxeval %s", r ? "n" : "m");
+    }
+    free(pat);
+    free(sub);
+    return 1;
+}
+
+/* locks: the (held > acquired) mutex pairs the real code has exhibited so far in this process */
+static int op_locks(int argc, char **argv, FILE *out) {
+    (void)argv;
+    if (argc != 0)
+        return 0;
+    fprintf(out, "locks");
+    h_lock_edges(out);
+    return 1;
+}
+
 /* reset <srvname>: what a connecter does when the connection is re-established */
 static int op_reset(int argc, char **argv, FILE *out) {
     struct server *s;
@@ -890,6 +924,8 @@ int h_rsp_op(const char *op, int argc, char **argv, FILE *out) {
     if (!strcmp(op, "reply")) return op_reply(argc, argv, out);
     if (!strcmp(op, "writer")) return op_writer(argc, argv, out);
     if (!strcmp(op, "tick")) return op_tick(argc, argv, out);
+    if (!strcmp(op, "locks")) return op_locks(argc, argv, out);
+    if (!strcmp(op, "rxeval")) return op_rxeval(argc, argv, out);
     if (!strcmp(op, "reset")) return op_reset(argc, argv, out);
     if (!strcmp(op, "srvstate")) return op_srvstate(argc, argv, out);
     if (!strcmp(op, "pop")) return op_pop(argc, argv, out);
